@@ -5,7 +5,9 @@ restricting the joined rows afterwards (what the SQL engine relies on when it st
 -/
 import DafRel.Lemmas.FinishApply
 import DafRel.Lemmas.Trivial
-import DafRel.Lemmas.Backtrack
+import DafRel.Lemmas.ApplySpec
+import DafRel.Lemmas.Commute
+import DafRel.Lemmas.Build
 
 namespace DafRel
 
